@@ -135,6 +135,11 @@ func (b *BFT) CheckProposerMessage(x *Message, p *validateMessageParams) (isPart
 	if x.Qc.Header.Height < p.cHeightUpdated {
 		return false, lib.ErrInvalidQCCommitteeHeight()
 	}
+	// the justification must be the vote certificate of this very round and of the phase right before the message's phase:
+	// a certificate of an older round would make Replicas lock on (or elect with) a stale view
+	if x.Qc.Header.Round != x.Header.Round || x.Qc.Header.Phase != x.Header.Phase-1 {
+		return false, lib.ErrWrongPhase()
+	}
 	if x.Header.Phase == Propose {
 		// ensure the sender is justified as the proposer
 		if !bytes.Equal(x.Qc.ProposerKey, x.Signature.PublicKey) {
